@@ -406,3 +406,20 @@ package stream
 //@   requires tst != nil && nextIntroduction != nil
 //@   modifies publishedSnapshot
 //@   at-call persistSnapshot requires the-manifest-is-that-of-the-snapshot-just-published: arg0 == publishedSnapshot && fresh(arg0)
+//
+//@ section C09 C03
+//
+// getDisjointParts, the grouping loop (fragment contract: this loop only, from an arbitrary state in which the boundary
+// bounds the current group): the boundary of the group being built is the LARGEST end time of the parts in it, so a part
+// that overlaps any member of the group joins the group (parts of different groups never overlap, which is what lets the
+// ordered query read group after group).
+//@ func getDisjointParts#boundary-is-the-group-maximum
+//@   mode int
+//@   opt fragment writes boundary
+//@   opt only-stated
+//@   requires forall k :: 0 <= k && k < len(currentGroup) ==> currentGroup[k] != nil && currentGroup[k].partMetadata.MaxTimestamp <= boundary
+//@   requires forall k :: 0 <= k && k < len(parts) ==> parts[k] != nil
+//@   requires !sameobj(currentGroup, parts)
+//@   ensures  covers-its-group: forall k :: 0 <= k && k < len(currentGroup) ==> currentGroup[k].partMetadata.MaxTimestamp <= boundary
+//@   loop 0 invariant !sameobj(currentGroup, parts) && (forall k :: 0 <= k && k < len(parts) ==> parts[k] != nil)
+//@   loop 0 invariant forall k :: 0 <= k && k < len(currentGroup) ==> currentGroup[k] != nil && currentGroup[k].partMetadata.MaxTimestamp <= boundary
